@@ -381,3 +381,348 @@ theorem C08.quadform_conj_without_quarter_fails :
   have := (h.2 1 ((2 : ℝ) • 1) rfl).2.2
   norm_num at this
 
+/-! ### The coded rules on expression trees -/
+namespace OdlModel.C08
+/-- Side conditions under which the coded conjugate of an expression is meaningful: positive
+left scalars, nonzero right scalars, `a = 0` in quadratic perturbations, a symmetric positive
+`QuadraticForm` operator with `operator.inverse` its inverse, pointwise multiplication by `v`
+symmetric with inverse multiplication by `1/v`.  Classes without an explicit evaluable
+conjugate (`FunctionalSum`, products, quotients, compositions, `MoreauEnvelope`, the default
+wrapper) and `InfimalConvolution` (no `_call`) are excluded. -/
+def Reg (o : VecOps E ℝ) : Fn E ℝ → Prop
+  | .coord _ => True
+  | .l2sq => True
+  | .const _ => True
+  | .indZero _ => True
+  | .lin _ _ => True
+  | .quad A At Ainv AinvT _ _ _ =>
+      ∃ A' Ai' : E →ₗ[ℝ] E, (∀ v, A v = A' v) ∧ (∀ v, At v = A' v) ∧ (∀ v, Ainv v = Ai' v) ∧
+        (∀ v, AinvT v = Ai' v) ∧ (∀ u v, ⟪A' u, v⟫ = ⟪u, A' v⟫) ∧ (∀ u, 0 ≤ ⟪u, A' u⟫) ∧
+        (∀ u, A' (Ai' u) = u)
+  | .lscal _ f => Reg o f
+  | .rscal f s => s ≠ 0 ∧ Reg o f
+  | .rvec f v vinv =>
+      (∀ a b, ⟪o.mul v a, b⟫ = ⟪a, o.mul v b⟫) ∧ (∀ a, o.mul v (o.mul vinv a) = a) ∧ Reg o f
+  | .ssum f _ => Reg o f
+  | .trans f _ => Reg o f
+  | .qp f a _ _ _ => a = 0 ∧ Reg o f
+  | .breg f _ _ => Reg o f
+  | _ => False
+
+/-- Fenchel–Young inequality between two model expressions (finite parts on the domains). -/
+def FYm (o : VecOps E ℝ) (t t' : Fn E ℝ) : Prop :=
+  ∀ x y, t.dom o x = true → t'.dom o y = true → o.inner x y ≤ t.value o x + t'.value o y
+end OdlModel.C08
+
+/-- A functional that the constructors flag `is_linear` (the flag that makes
+`Functional.__mul__` build `s * f` instead of `f(s ·)`) is homogeneous and finite everywhere.
+True for the flag as computed since the fix of finding C09-F2 (it was false for
+`FunctionalQuadraticPerturb` with a nonzero constant before). -/
+theorem C08.linear_flag_homogeneous (μ : E → E → E) (cv : Builtin ℝ → E → ℝ)
+    (cd : Builtin ℝ → E → Bool) (cg : Builtin ℝ → E → E) (t : Fn E ℝ)
+    (h : t.isLinear = true) :
+    (∀ (c : ℝ) (y : E), t.value (eOps μ cv cd cg) (c • y) = c * t.value (eOps μ cv cd cg) y) ∧
+      ∀ y, t.dom (eOps μ cv cd cg) y = true := by
+  have hsm : ∀ (a : ℝ) (z : E), (eOps μ cv cd cg).smul a z = a • z := fun _ _ => rfl
+  have hin : ∀ a b : E, (eOps μ cv cd cg).inner a b = ⟪a, b⟫ := fun _ _ => rfl
+  induction t with
+  | const c =>
+      simp [Fn.isLinear] at h; subst h
+      exact ⟨fun c y => by simp [Fn.value], fun y => rfl⟩
+  | lin b c =>
+      simp [Fn.isLinear] at h; subst h
+      exact ⟨fun c y => by simp only [Fn.value, hin, real_inner_smul_right]; ring, fun y => rfl⟩
+  | lscal s f ih =>
+      obtain ⟨h1, h2⟩ := ih (by simpa [Fn.isLinear] using h)
+      exact ⟨fun c y => by simp only [Fn.value, h1]; ring, fun y => by simpa [Fn.dom] using h2 y⟩
+  | rscal f s ih =>
+      obtain ⟨h1, h2⟩ := ih (by simpa [Fn.isLinear] using h)
+      refine ⟨fun c y => ?_, fun y => by simpa [Fn.dom] using h2 _⟩
+      simp only [Fn.value, hsm]
+      rw [smul_comm, h1]
+  | sum f g ihf ihg =>
+      simp [Fn.isLinear] at h
+      obtain ⟨f1, f2⟩ := ihf h.1
+      obtain ⟨g1, g2⟩ := ihg h.2
+      exact ⟨fun c y => by simp only [Fn.value, f1, g1]; ring,
+        fun y => by simp [Fn.dom, f2 y, g2 y]⟩
+  | ssum f c ih =>
+      simp [Fn.isLinear] at h
+      obtain ⟨h1, h2⟩ := ih h.1
+      obtain rfl := h.2
+      exact ⟨fun c y => by simp only [Fn.value, h1]; ring, fun y => by simpa [Fn.dom] using h2 y⟩
+  | qp f a hasU u c ih =>
+      simp [Fn.isLinear] at h
+      obtain ⟨⟨hf, rfl⟩, rfl⟩ := h
+      obtain ⟨h1, h2⟩ := ih hf
+      refine ⟨fun c y => ?_, fun y => by simpa [Fn.dom] using h2 y⟩
+      simp only [Fn.value, hin, h1, real_inner_smul_left]; ring
+  | coord b => simp [Fn.isLinear] at h
+  | l2sq => simp [Fn.isLinear] at h
+  | indZero c => simp [Fn.isLinear] at h
+  | quad A At Ainv AinvT hasB b c => simp [Fn.isLinear] at h
+  | rvec f v vinv _ => simp [Fn.isLinear] at h
+  | trans f t _ => simp [Fn.isLinear] at h
+  | prod f g _ _ => simp [Fn.isLinear] at h
+  | quot f g _ _ => simp [Fn.isLinear] at h
+  | comp f op dAdj _ => simp [Fn.isLinear] at h
+  | breg f p q _ => simp [Fn.isLinear] at h
+  | infconv f g _ _ => simp [Fn.isLinear] at h
+  | menv f P σ _ => simp [Fn.isLinear] at h
+  | dconj f _ => simp [Fn.isLinear] at h
+
+/-- **The conjugation rules as coded are sound for expression trees** (all depths, every real
+inner-product space, i.e. every weighting / discretisation / product structure): if
+`t.convex_conj` — computed by the coded rules `Fn.conj`, including the `is_linear` dispatch of
+`Functional.__mul__` inside `s * f* * (1/s)` and `f* * (1/s)`, the `0.25 * A.inverse`
+construction of `QuadraticForm`, `f*.translated(u) - c`, `FunctionalQuadraticPerturb(f*, t)` —
+is `t'`, the side conditions `Reg` hold and the coordinate-wise leaf pairs (L1 ↔ indicator of
+the L∞ ball, Huber ↔ indicator + γ/2‖·‖²) satisfy Fenchel–Young, then
+`⟨x, y⟩ ≤ t(x) + t'(y)` wherever both values are finite.
+Covers every class of the model with an explicit evaluable conjugate: L1, IndicatorLpUnitBall(∞),
+Huber, L2NormSquared, Constant, IndicatorZero, QuadraticForm (linear and with operator),
+LeftScalarMult, RightScalarMult, RightVectorMult, ScalarSum, Translation, QuadraticPerturb
+(`a = 0`), BregmanDistance.  Not in this induction: InfimalConvolution (no `_call`; rule
+`conj_infconv_ineq`), SeparableSum (not in the executable model; rule `conj_separable`), and
+the equality case at `y = ∇f(x)` (proved rule by rule above, checked on trees by the oracle). -/
+theorem C08.conj_sound (μ : E → E → E) (cv : Builtin ℝ → E → ℝ)
+    (cd : Builtin ℝ → E → Bool) (cg : Builtin ℝ → E → E)
+    (hl1 : FYm (eOps μ cv cd cg) (.coord .l1) (.coord .indLinf))
+    (hlinf : FYm (eOps μ cv cd cg) (.coord .indLinf) (.coord .l1))
+    (hhub : ∀ γ, FYm (eOps μ cv cd cg) (.coord (.huber γ))
+      (.qp (.coord .indLinf) (γ / two) false (eOps μ cv cd cg).zero 0))
+    (t t' : Fn E ℝ) (hreg : Reg (eOps μ cv cd cg) t) (h : t.conj (eOps μ cv cd cg) = some t') :
+    FYm (eOps μ cv cd cg) t t' := by
+  have hsm : ∀ (a : ℝ) (z : E), (eOps μ cv cd cg).smul a z = a • z := fun _ _ => rfl
+  have hin : ∀ a b : E, (eOps μ cv cd cg).inner a b = ⟪a, b⟫ := fun _ _ => rfl
+  have hsub : ∀ a b : E, (eOps μ cv cd cg).sub a b = a - b := fun _ _ => rfl
+  have hadd : ∀ a b : E, (eOps μ cv cd cg).add a b = a + b := fun _ _ => rfl
+  -- a pair of model expressions as an abstract conjugate pair (inequality part only)
+  have mk : ∀ f g : Fn E ℝ, FYm (eOps μ cv cd cg) f g →
+      ConjPair (fun x => f.dom (eOps μ cv cd cg) x = true) (fun x => f.value (eOps μ cv cd cg) x)
+        (fun y => g.dom (eOps μ cv cd cg) y = true) (fun y => g.value (eOps μ cv cd cg) y)
+        (fun _ _ => False) := fun f g hfg => ⟨hfg, fun _ _ h => h.elim⟩
+  induction t generalizing t' with
+  | coord b =>
+      cases b with
+      | l1 => simp [Fn.conj] at h; subst h; exact hl1
+      | indLinf => simp [Fn.conj] at h; subst h; exact hlinf
+      | huber γ => simp [Fn.conj] at h; subst h; exact hhub γ
+  | l2sq =>
+      simp [Fn.conj] at h; subst h
+      intro x y _ _
+      have := (C08.l2sq_conj (E := E)).1 x y trivial trivial
+      simp only [Fn.value, eOps, two]
+      norm_num at this ⊢
+      linarith
+  | const c =>
+      simp [Fn.conj] at h; subst h
+      intro x y _ hy
+      simp only [Fn.dom, eOps, decide_eq_true_eq] at hy
+      subst hy
+      simp [Fn.value, eOps]
+  | indZero c =>
+      simp [Fn.conj] at h; subst h
+      intro x y hx _
+      simp only [Fn.dom, eOps, decide_eq_true_eq] at hx
+      subst hx
+      simp [Fn.value, eOps]
+  | lin b c =>
+      simp [Fn.conj] at h; subst h
+      intro x y _ hy
+      simp only [Fn.dom, eOps, decide_eq_true_eq] at hy
+      have : y = b := sub_eq_zero.mp hy
+      subst this
+      simp [Fn.value, eOps, real_inner_comm]
+  | quad A At Ainv AinvT hasB b c =>
+      obtain ⟨A', Ai', hA, hAt, hAi, hAit, hsym, hpos, hinv⟩ := hreg
+      have hisym : ∀ u v, ⟪Ai' u, v⟫ = ⟪u, Ai' v⟫ := by
+        intro u v
+        calc ⟪Ai' u, v⟫ = ⟪Ai' u, A' (Ai' v)⟫ := by rw [hinv]
+          _ = ⟪A' (Ai' u), Ai' v⟫ := (hsym _ _).symm
+          _ = ⟪u, Ai' v⟫ := by rw [hinv]
+      intro x y _ _
+      by_cases hb : hasB = true
+      · simp [Fn.conj, hb] at h; subst h
+        have key := (C08.quadform_conj A' Ai' b c hsym hpos hinv).1 x y trivial trivial
+        simp only [Fn.value, hb, if_true, hsm, hin, hsub, hadd, hA, hAi, hAit, two]
+        have e1 : ⟪b, Ai' y⟫ = ⟪y, Ai' b⟫ := by rw [← hisym, real_inner_comm]
+        simp only [inner_sub_left, inner_sub_right, map_sub, inner_add_right,
+          real_inner_smul_right, inner_neg_right, neg_smul, one_smul, e1,
+          real_inner_comm x b] at key ⊢
+        norm_num at key ⊢
+        linarith
+      · simp [Fn.conj, hb] at h; subst h
+        have key := (C08.quadform_conj A' Ai' 0 c hsym hpos hinv).1 x y trivial trivial
+        simp only [Fn.value, hb, hsm, hin, hA, hAi, two] at key ⊢
+        simp only [sub_zero, inner_zero_left, real_inner_smul_right] at key ⊢
+        norm_num at key ⊢
+        linarith
+  | lscal s f ih =>
+      by_cases hs : s ≤ 0
+      · simp [Fn.conj, hs] at h
+      · cases hfc : f.conj (eOps μ cv cd cg) with
+        | none => simp [Fn.conj, hs, hfc] at h
+        | some g =>
+            have hs' : 0 < s := not_le.mp hs
+            have hne : s ≠ 0 := ne_of_gt hs'
+            have hfy := ih g hreg hfc
+            by_cases hlin : g.isLinear = true
+            · -- `Functional.__mul__` builds `(1/s) * (s * g)` for a functional flagged linear
+              simp [Fn.conj, hs, hfc, Fn.mulScalar, Fn.isLinear, hlin] at h
+              subst h
+              obtain ⟨hhom, hdom⟩ := C08.linear_flag_homogeneous μ cv cd cg g hlin
+              intro x y hx _
+              have h2 := hfy x ((1 / s) • y) (by simpa [Fn.dom] using hx) (hdom _)
+              rw [hhom, hin, real_inner_smul_right] at h2
+              simp only [Fn.value, hin]
+              have h3 := mul_le_mul_of_nonneg_left h2 hs'.le
+              have e1 : s * (1 / s * ⟪x, y⟫) = ⟪x, y⟫ := by field_simp
+              have e2 : s⁻¹ * (s * g.value (eOps μ cv cd cg) y) = g.value (eOps μ cv cd cg) y := by
+                field_simp
+              have e3 : s * (f.value (eOps μ cv cd cg) x + 1 / s * g.value (eOps μ cv cd cg) y)
+                  = s * f.value (eOps μ cv cd cg) x + g.value (eOps μ cv cd cg) y := by
+                field_simp
+              rw [e1, e3] at h3
+              rw [e2]
+              exact h3
+            · simp [Fn.conj, hs, hfc, Fn.mulScalar, Fn.isLinear, hlin] at h
+              subst h
+              have := (C08.conj_left_scalar hs' (mk f g hfy)).1
+              intro x y hx hy
+              have h2 := this x y hx (by simpa [Fn.dom, eOps] using hy)
+              simpa [Fn.value, eOps] using h2
+  | rscal f s ih =>
+      obtain ⟨hs, hr⟩ := hreg
+      cases hfc : f.conj (eOps μ cv cd cg) with
+      | none => simp [Fn.conj, hfc] at h
+      | some g =>
+          have hfy := ih g hr hfc
+          have := (C08.conj_right_scalar hs (mk f g hfy)).1
+          by_cases hlin : g.isLinear = true
+          · simp [Fn.conj, hfc, Fn.mulScalar, hlin] at h
+            subst h
+            obtain ⟨hhom, hdom⟩ := C08.linear_flag_homogeneous μ cv cd cg g hlin
+            intro x y hx _
+            have h2 := this x y (by simpa [Fn.dom, eOps] using hx) (hdom _)
+            simp only [hhom] at h2
+            simpa [Fn.value, eOps] using h2
+          · simp [Fn.conj, hfc, Fn.mulScalar, hlin] at h
+            subst h
+            intro x y hx hy
+            have h2 := this x y (by simpa [Fn.dom, eOps] using hx) (by simpa [Fn.dom, eOps] using hy)
+            simpa [Fn.value, eOps] using h2
+  | rvec f v vinv ih =>
+      obtain ⟨hsym, hinv, hr⟩ := hreg
+      cases hfc : f.conj (eOps μ cv cd cg) with
+      | none => simp [Fn.conj, hfc] at h
+      | some g =>
+          simp [Fn.conj, hfc] at h
+          subst h
+          have := (C08.conj_right_vector ((eOps μ cv cd cg).mul v) ((eOps μ cv cd cg).mul vinv)
+            hsym hinv (mk f g (ih g hr hfc))).1
+          intro x y hx hy
+          have h2 := this x y (by simpa [Fn.dom] using hx) (by simpa [Fn.dom] using hy)
+          simpa [Fn.value, hin] using h2
+  | ssum f c ih =>
+      cases hfc : f.conj (eOps μ cv cd cg) with
+      | none => simp [Fn.conj, hfc] at h
+      | some g =>
+          simp [Fn.conj, hfc] at h
+          subst h
+          intro x y hx hy
+          have := ih g hreg hfc x y hx hy
+          simp only [Fn.value]
+          linarith
+  | trans f t ih =>
+      cases hfc : f.conj (eOps μ cv cd cg) with
+      | none => simp [Fn.conj, hfc] at h
+      | some g =>
+          simp [Fn.conj, hfc] at h
+          subst h
+          have := (C08.conj_translation t (mk f g (ih g hreg hfc))).1
+          intro x y hx hy
+          have h2 := this x y (by simpa [Fn.dom, eOps] using hx) (by simpa [Fn.dom, eOps] using hy)
+          simpa [Fn.value, eOps] using h2
+  | qp f a hasU u c ih =>
+      obtain ⟨ha, hr⟩ := hreg
+      subst ha
+      cases hfc : f.conj (eOps μ cv cd cg) with
+      | none => simp [Fn.conj, hfc] at h
+      | some g =>
+          have := (C08.conj_linear_perturb u c (mk f g (ih g hr hfc))).1
+          by_cases hc : c = 0
+          · simp [Fn.conj, hfc, hc] at h
+            subst h
+            intro x y hx hy
+            have h2 := this x y (by simpa [Fn.dom, eOps] using hx) (by simpa [Fn.dom, eOps] using hy)
+            simp [Fn.value, eOps, hc] at h2 ⊢
+            linarith
+          · simp [Fn.conj, hfc, hc] at h
+            subst h
+            intro x y hx hy
+            have h2 := this x y (by simpa [Fn.dom, eOps] using hx) (by simpa [Fn.dom, eOps] using hy)
+            simp [Fn.value, eOps] at h2 ⊢
+            linarith
+  | breg f p q ih =>
+      cases hfc : f.conj (eOps μ cv cd cg) with
+      | none => simp [Fn.conj, hfc] at h
+      | some g =>
+          have := (C08.conj_linear_perturb ((eOps μ cv cd cg).smul (-1) q)
+            (-(f.value (eOps μ cv cd cg) p) + (eOps μ cv cd cg).inner q p)
+            (mk f g (ih g hreg hfc))).1
+          by_cases hc : -(f.value (eOps μ cv cd cg) p) + (eOps μ cv cd cg).inner q p = 0
+          · simp only [Fn.conj, hfc, hc, if_true] at h
+            simp at h
+            subst h
+            intro x y hx hy
+            have h2 := this x y (by simpa [Fn.dom] using hx) (by simpa [Fn.dom, hsub] using hy)
+            simp only [Fn.value, hc] at h2 ⊢
+            simp only [hsub, hin] at h2 ⊢
+            linarith
+          · simp only [Fn.conj, hfc, hc, if_false] at h
+            simp at h
+            subst h
+            intro x y hx hy
+            have h2 := this x y (by simpa [Fn.dom] using hx) (by simpa [Fn.dom, hsub] using hy)
+            simp only [Fn.value] at h2 ⊢
+            simp only [hsub, hin] at h2 ⊢
+            linarith
+  | sum f g _ _ => exact hreg.elim
+  | prod f g _ _ => exact hreg.elim
+  | quot f g _ _ => exact hreg.elim
+  | comp f op dAdj _ => exact hreg.elim
+  | infconv f g _ _ => exact hreg.elim
+  | menv f P σ _ => exact hreg.elim
+  | dconj f _ => exact hreg.elim
+
+/-- Non-vacuity: `f(x) = 2‖x − 3‖²` on `E = ℝ` satisfies `Reg` and has a coded conjugate. -/
+example : ((Fn.trans (.lscal 2 .l2sq) 3 : Fn ℝ ℝ).conj
+      (eOps (· * ·) (fun _ _ => 0) (fun _ _ => false) (fun _ _ => 0))).isSome = true ∧
+    ∀ t', (Fn.trans (.lscal 2 .l2sq) 3 : Fn ℝ ℝ).conj
+        (eOps (· * ·) (fun _ _ => 0) (fun _ _ => false) (fun _ _ => 0)) = some t' →
+      FYm (eOps (· * ·) (fun _ _ => 0) (fun _ _ => false) (fun _ _ => 0))
+        (Fn.trans (.lscal 2 .l2sq) 3) t' := by
+  constructor
+  · have h2 : ¬ ((2 : ℝ) ≤ 0) := by norm_num
+    simp [Fn.conj, Fn.mulScalar, Fn.isLinear, h2]
+  · intro t' h
+    refine C08.conj_sound (E := ℝ) _ _ _ _ ?_ ?_ ?_ _ t' ?_ h
+    · intro x y hx; simp [Fn.dom, eOps] at hx
+    · intro x y hx; simp [Fn.dom, eOps] at hx
+    · intro γ x y hx; simp [Fn.dom, eOps] at hx
+    · trivial
+
+/-- Non-vacuity of the `QuadraticForm` case: `f(x) = ⟨x, 2x⟩ + ⟨1, x⟩ + 3` on `E = ℝ`
+(`A = 2·id`, `A⁻¹ = ½·id`) satisfies `Reg`. -/
+example : Reg (eOps (· * ·) (fun _ _ => 0) (fun _ _ => false) (fun _ _ => 0))
+    (Fn.quad (fun x : ℝ => 2 * x) (fun x => 2 * x) (fun x => 1 / 2 * x) (fun x => 1 / 2 * x)
+      true 1 3 : Fn ℝ ℝ) := by
+  refine ⟨(2 : ℝ) • LinearMap.id, (1 / 2 : ℝ) • LinearMap.id, ?_, ?_, ?_, ?_, ?_, ?_, ?_⟩
+  · intro v; simp
+  · intro v; simp
+  · intro v; simp
+  · intro v; simp
+  · intro u v; simp; ring
+  · intro u; simp; nlinarith [sq_nonneg u]
+  · intro u; simp
